@@ -375,7 +375,7 @@ class LookupLoop(LoopSpec):
         return (self.view.hi - self.view.lo) - lift(loc["vc_i1_"], self.n)
 
 
-@pproof("py:parser._lookup_referenced_member", "Parser._lookup_referenced_member", ["C11", "C08"],
+@pproof("py:parser._lookup_referenced_member", "Parser._lookup_referenced_member", ["C11", "C08", "C12"],
         cuts={("Parser._lookup_referenced_member", 1): "loop1"},
         must=["post:innermost", "post:none", "loop1/inv-preserve#inner-scopes-missed"],
         calls=["Scope.get_member", "Parser.scope_stack_in_current_proto"],
